@@ -1,9 +1,12 @@
 //go:build verif
 
-// Contracts for package searcher: ConjunctionSearcher at protocol level (read by /verif/gocv;
-// comment-only effect with the verif tag off). Protocol level as in zz_verif_filter.go: results
-// strictly ascending, Advance lands at or after the target, every call on a child satisfies the
-// child's precondition (forward targets only), no panic, representation invariant preserved.
+// Contracts for package searcher: ConjunctionSearcher (read by /verif/gocv; comment-only effect with
+// the verif tag off). Protocol level (C08) as in zz_verif_filter.go: results strictly ascending,
+// Advance lands at or after the target, every call on a child satisfies the child's precondition
+// (forward targets only), no panic, representation invariant preserved. Set level (C02): given
+// children that satisfy the Searcher contract, Next returns the least id that ALL children match
+// beyond the last returned one and Advance the least at or after the target; nil only when there is
+// none: nothing is skipped, nothing is returned twice.
 
 package searcher
 
@@ -44,7 +47,7 @@ package searcher
 // advanceChild(i, ID): child i is moved to its first match at or after ID; the other slots are
 // untouched. The target must be beyond the child's cursor.
 //@ func ConjunctionSearcher.advanceChild
-//@   props C08
+//@   props C08 C02
 //@   mode int
 //@   requires s != nil && poolApart(ctx, s) && conjShape(s) && 0 <= i && i < len(s.searchers) && forall(k, 0, len(s.searchers), slotOK(s, k))
 //@   requires implies(s.currs[i] != nil, dmKey(s.currs[i]) < idKey(ID))
@@ -61,7 +64,7 @@ package searcher
 
 // initSearchers: every child is moved to its first match
 //@ func ConjunctionSearcher.initSearchers
-//@   props C08
+//@   props C08 C02
 //@   mode int
 //@   requires s != nil && poolApart(ctx, s) && conjShape(s) && !s.initialized && conjFresh(s)
 //@   modifies s.initialized, s.currs[*], fields(search.DocumentMatch), search.DocumentMatch.cowner, search.DocumentMatchPool.avail, mem(*search.DocumentMatch), search.Searcher.started, search.Searcher.last, search.Searcher.done
